@@ -27,6 +27,9 @@ purpose is in design.d/C19.md, every construct is run through Python and Lean by
                the last three may start with guards `if c: continue` (the list is filtered; no other `continue`);
                inside an accumulation: `for y in L: if c: <updates>; break` (the updates for the first y with c),
                `S.add(e)` on a local declared `set()` (a list; only emptiness and membership are meaningful)
+               opt-in per spec (`effect_loops`, added for harness/pygen_pxupdate.py, C11/C15): the search loop with a
+               raising / assigning `else` (`for x in L: if c: …; break` + `else: …` -> `match L.find? c`) and loops with
+               effects in the body (`L.forM fun x => do …`, `continue` allowed), `raise Cls` without a message
   expressions str / bool / None / int constants, tuples, `{"k": "v", ...}` and `[…]` literals, names of parameters and
                locals, `d["k"]` (KeyError when missing), `==`, `!=`, `is None`, `is not None`, `< <= > >=` and `+ - *`
                on integers, `max(a, b)`, `min(a, b)`, `len(list)`, `in` / `not in` on literal lists/tuples/sets of
@@ -226,12 +229,19 @@ class Spec:
     index_error Lean term thrown by `l[0]` on an empty list (Python's IndexError)
     type_defaults {opaque Lean type: a value of it}: values of these types may be compared with `==` (the type has a lawful
                 `BEq`) and locals of these types may be first assigned inside the branches of an `if`
+    effect_loops  (opt-in, monadic functions only) two further shapes of `for` at statement level:
+                `for x in L: if c: <statements>; break` + `else: <statements>`  ->  `match L.find? c with | some x => … | none => …`
+                (the arms are `do` sequences: pinned actions, `raise`, updates of declared locals), and a loop whose body
+                has effects (pinned actions, declared action calls, `raise`, `continue`; no `break` / `return` / `else`)
+                ->  `L.forM fun x => do …` (`continue` = `return ()` of the element's block); `raise Cls` without a message
     """
 
     def __init__(self, lean_name, binders, params, ret, atoms=None, blocks=None, monad="pure", doc="", calls=None,
                  assign_blocks=None, raises=None, ignored_calls=(), transparent_with=(), fields=None, prims=None,
-                 prelude=(), local_types=None, type_defaults=None, stmts=None, unpack_error=None, index_error=None):
+                 prelude=(), local_types=None, type_defaults=None, stmts=None, unpack_error=None, index_error=None,
+                 effect_loops=False):
         self.lean_name = lean_name
+        self.effect_loops = effect_loops
         self.binders = list(binders)
         self.params = dict(params)
         self.ret = ret
@@ -1066,6 +1076,9 @@ class _Fn:
         if isinstance(s, ast.Raise):
             self.emit(depth, f"throw {self._raise(s, where)}")
             return True
+        if isinstance(s, ast.Continue) and getattr(self, "effect_depth", 0) > 0 and not self.lam:
+            self.emit(depth, "return ()")                  # `continue` of an effect loop: leaves the element's `do` block
+            return True
         if isinstance(s, ast.If):
             self._if(s, depth, "if")
             return _terminates([s])
@@ -1123,6 +1136,9 @@ class _Fn:
         if self.lam:
             raise Unsupported(f"{where}: raise inside a loop body")
         e = s.exc
+        if self.spec.effect_loops and s.cause is None and (isinstance(e, ast.Name) or (
+                isinstance(e, ast.Call) and isinstance(e.func, ast.Name) and not e.args and not e.keywords)):
+            e = ast.Call(func=e if isinstance(e, ast.Name) else e.func, args=[ast.Constant(value="")], keywords=[])
         if s.cause is not None or not (isinstance(e, ast.Call) and isinstance(e.func, ast.Name) and len(e.args) == 1
                                        and not e.keywords):
             raise Unsupported(f"{where}: `{ast.unparse(s)[:80]}` (only `raise Cls(message)`)")
@@ -1409,6 +1425,68 @@ class _Fn:
         if isinstance(s.iter, (ast.List, ast.Tuple)) and not any(isinstance(e, ast.Starred) for e in s.iter.elts) \
                 and self.atom(s.iter) is None and not _str_elements(s.iter):
             return self._for_unrolled(s, depth, top, where)
+        if self.spec.effect_loops and self.spec.monadic and not self.lam:
+            if _find_else_loop(s):
+                return self._for_find_else(s, depth, where)
+            n0, saved = len(self.lines), (dict(self.locals), dict(self.inline), set(self.logseen), self.ntmp)
+            try:
+                return self._for_pure(s, depth, top, where)
+            except Unsupported as first:
+                del self.lines[n0:]
+                self.locals, self.inline, self.logseen, self.ntmp = saved
+                try:
+                    return self._for_effect(s, depth, where)
+                except Unsupported as e:
+                    raise Unsupported(f"{first}; as a loop with effects: {e}")
+        return self._for_pure(s, depth, top, where)
+
+    def _loop_source(self, s, where):
+        if not isinstance(s.target, ast.Name) or s.target.id not in self.loopvars \
+                or any(s.target.id in sc for sc in self.scopes):
+            raise Unsupported(f"{where}: loop target `{ast.unparse(s.target)}` (a name that is bound by this loop only)")
+        src, ts = self.expr(s.iter)
+        et = elem_type(ts)
+        if et is None:
+            raise Unsupported(f"{where}: loop over a {ts} (lists only)")
+        v = lean_ident(s.target.id)
+        return src, v, {s.target.id: (v, et)}
+
+    def _for_find_else(self, s, depth, where):
+        """for x in L: if c: <statements>; break        match (L.find? (fun x => c)) with
+           else: <statements>                      ->   | some x => <statements>  | none => <statements>"""
+        src, v, scope = self._loop_source(s, where)
+        test = s.body[0]
+        c = self._under(scope, lambda: self.cond(test.test, False))
+        self.emit(depth, f"match ({src}.find? (fun {v} => {c})) with")
+        self.emit(depth, f"| some {v} =>")
+        self.scopes.append(scope)
+        try:
+            self.block(test.body[:-1], depth + 1)
+        finally:
+            self.scopes.pop()
+        self.emit(depth, "| none =>")
+        self.block(s.orelse, depth + 1)
+        return False
+
+    def _for_effect(self, s, depth, where):
+        """for x in L: <statements with effects>   ->   L.forM fun x => do <statements>   (`continue` = `return ()`)"""
+        if s.orelse:
+            raise Unsupported(f"{where}: `else` of a loop with effects")
+        for n in _own_loop_nodes(s.body):
+            if isinstance(n, (ast.Break, ast.Return)):
+                raise Unsupported(f"{where}: `{type(n).__name__.lower()}` inside a loop with effects")
+        src, v, scope = self._loop_source(s, where)
+        self.emit(depth, f"{src}.forM fun {v} => do")
+        self.scopes.append(scope)
+        self.effect_depth = getattr(self, "effect_depth", 0) + 1
+        try:
+            self.block(s.body, depth + 1)
+        finally:
+            self.effect_depth -= 1
+            self.scopes.pop()
+        return False
+
+    def _for_pure(self, s, depth, top, where):
         # leading guards  `if c: continue`  (the first statements of the body): the loop runs over the elements that
         # pass none of them, i.e. over the filtered list; any other `continue` is refused
         body = list(s.body)
@@ -1718,6 +1796,37 @@ class _Fn:
                 b2 = ast.fix_missing_locations(T().visit(copy.deepcopy(b)))
                 done = self.stmt(b2, depth, top)
         return done
+
+
+def _own_loop_nodes(stmts):
+    """the `break` / `continue` statements that belong to the loop whose body is `stmts`, and every `return` in it"""
+    out = []
+
+    def walk(nodes, own):
+        for n in nodes:
+            if isinstance(n, ast.Return) or (own and isinstance(n, (ast.Break, ast.Continue))):
+                out.append(n)
+            elif isinstance(n, (ast.For, ast.While)):
+                walk(n.body, False)
+                walk(n.orelse, own)
+            elif isinstance(n, ast.stmt):
+                for field in ("body", "orelse", "finalbody"):
+                    walk(getattr(n, field, []) or [], own)
+                for h in getattr(n, "handlers", []) or []:
+                    walk(h.body, own)
+    walk(stmts, True)
+    return out
+
+
+def _find_else_loop(n):
+    """`for x in L: if c: <statements>; break` with an `else:` branch of the loop: a search whose failure is handled"""
+    if not (isinstance(n, ast.For) and n.orelse and len(n.body) == 1 and isinstance(n.body[0], ast.If)
+            and not n.body[0].orelse and n.body[0].body and isinstance(n.body[0].body[-1], ast.Break)):
+        return False
+    inner = n.body[0].body[:-1]
+    return not any(isinstance(x, (ast.Break, ast.Continue, ast.Return, ast.For, ast.While))
+                   for st in inner for x in ast.walk(st)) \
+        and not any(isinstance(x, (ast.Break, ast.Continue)) for x in _own_loop_nodes(n.orelse))
 
 
 def _first_match_loop(n):
